@@ -9,7 +9,7 @@ ID = "C08"
 THEOREMS = ["C08_answers_whole", "C08_answers_bounded", "C08_answers_in_order_trailing_dropped", "C08_rxparamsetup_atomic", "C08_rxtimingsetup_effect", "C08_rx1_delay_values",
             "C08_dlchannel_atomic", "C08_newchannel_atomic", "C08_linkadr_atomic", "C08_sticky_answers",
             "C08_accepted_linkadr_governs_next_uplink", "C08_dynamic_plan_rejects_rfu_chmaskcntl", "C08_rfu_chmaskcntl_poisons_the_block",
-            "C08_poisoned_block_is_rejected", "C08_block_poison_persists"]
+            "C08_poisoned_block_is_rejected", "C08_block_poison_persists", "C08_linkadr_keep_is_the_live_configuration"]
 BAND = {0: (915000000, 928000000), 1: (915000000, 928000000), 2: (915000000, 928000000), 3: (917000000, 920000000),
         4: (915000000, 928000000), 5: (863000000, 870000000), 6: (433050000, 434790000), 7: (865000000, 867000000), 8: (902000000, 928000000)}
 MAXOFF = {0: 7, 1: 7, 2: 7, 3: 7, 4: 5, 5: 5, 6: 5, 7: 7, 8: 3}
@@ -231,6 +231,7 @@ def oracle(case, impl, model=None):
                 if len(answers) == len(handled) and len(reqs) > 1 and "before" in pending_reqs and "after" in pending_reqs:
                     b, af = pending_reqs["before"], pending_reqs["after"]
                     cur_dr, pw_kept = b[0], True
+                    cur_delay, cur_off, cur_rx2dr, cur_rx2f = b[1], b[3], b[4], b[5]
                     ai, ri = 0, 0
                     while ri < len(reqs):
                         c, p = reqs[ri]
@@ -250,8 +251,19 @@ def oracle(case, impl, model=None):
                             ri = rj + 1
                         else:
                             if (c, p) in handled:
+                                if c == 0x05 and ai < len(answers) and answers[ai][0] == 0x05 and answers[ai][1][0] == 7:
+                                    cur_off = (p[0] >> 4) & 7
+                                    if p[0] & 15 != 15:
+                                        cur_rx2dr = p[0] & 15
+                                    cur_rx2f = int.from_bytes(p[1:4], "little") * 100
+                                if c == 0x08:
+                                    cur_delay = 1000 if (p[0] & 15) <= 1 else (p[0] & 15) * 1000
                                 ai += 1
                             ri += 1
+                    if ai == len(answers) and (af[1], af[3], af[4], af[5]) != (cur_delay, cur_off, cur_rx2dr, cur_rx2f):
+                        return {"kind": "several requests in one downlink: RX1 delay / RX1 offset / RX2 data rate / RX2 frequency are not what the acknowledged "
+                                        "RXParamSetupReq and RXTimingSetupReq command in sequence", "before": b, "after": af,
+                                "expected": [cur_delay, cur_off, cur_rx2dr, cur_rx2f], "requests": [("%02x" % c) + p.hex() for c, p in reqs]}
                     if any(c == 0x03 for c, _ in reqs) and ai == len(answers):
                         if af[0] != cur_dr:
                             return {"kind": "several requests in one downlink: the data rate is not what the acknowledged LinkADRReq blocks command in sequence "
